@@ -118,6 +118,21 @@ def gen(rng, tier, k):
     return dict(cls=cls, lists=[chs], initial=initial)
 
 
+def edited_then_reseat(TimingMap, initial, mk):
+    """One TimingMap object: looked at, then edited in place (same number of changes), then reseated."""
+    tm = TimingMap.from_bpm_changes_snap(initial, mk(), False)
+    tm.bpm_changes_snap()
+    try:
+        tm.offsets([tm.bpm_changes_snap()[-1].snap])
+    except Exception:
+        pass
+    first = tm.bpm_changes_offset[0]
+    d = first.metronome * 60000.0 / first.bpm  # one whole measure of the first segment
+    for c in tm.bpm_changes_offset[1:]:
+        c.offset += d
+    return tm.reseat()
+
+
 def witness_outputs(initial, mk):
     """What the three entry points give for a list: [(offset, bpm, metronome)...] or the exception name."""
     from reamber.algorithms.timing.TimingMap import TimingMap
@@ -202,6 +217,7 @@ def run(ctx, case):
             lambda: TimingMap.reseat_bpm_changes_snap(mk()),
             lambda: TimingMap.from_bpm_changes_snap(initial, mk(), True),
             lambda: TimingMap.from_bpm_changes_snap(initial, mk(), False).reseat(),
+            lambda: edited_then_reseat(TimingMap, initial, mk),
         ):
             try:
                 f()
